@@ -16,7 +16,14 @@ ASSUMPTIONS = ['with math_mode=verbatim the SOURCE of a formula is reproduced, c
                'of the property wins over the first); comments are never generated between a macro and its argument '
                '(the expression parser consumes them: they are in no node)',
                'fill_text is exercised on the real code only (textwrap is an oracle)']
-PARTIAL = []
+PARTIAL = ['C12_comments_kept_covered_partial: presence of every kept comment is proved for the covered positions (lists, '
+           'groups, transparent environments, argument-concatenating macros, positional and keyed replacement templates, '
+           'formula bodies for markers without trailing blank/newline); not for arguments of replacement callables '
+           '(\\section, \\href, \\item[..], accents, math alphabets: several strip / re-case / re-style their argument) '
+           'and matrix cells',
+           'C12_math_verbatim_covered_partial: presence of the source of every verbatim formula, same covered positions',
+           'C12_source_level (DESIGN 6/C12: documents differing only in comment text convert equally, via the document '
+           'grammar of C02) is not stated; the tree-level non-interference theorems are complete']
 REFUTED = []
 CASE_TIMEOUT = 10.0
 
